@@ -326,7 +326,7 @@ Proof.
   destruct (m_flag m) as [f|] eqn:F; [|simpl; split; [exact I | apply same_frame_refl]].
   unfold flag_arg. rewrite F.
   destruct (get_arg m f) as [r|] eqn:G; [|simpl; split; [exact I | apply same_frame_refl]].
-  destruct (takes_value (r_spec r) && negb (r_raw r) && negb (a_optional (r_spec r)));
+  destruct (takes_value (r_spec r) && negb (m_got m) && negb (a_optional (r_spec r)));
     [simpl; reflexivity|].
   destruct (negb (r_raw r) && a_optional (r_spec r)) eqn:O;
     [|simpl; split; [exact I | apply same_frame_refl]].
